@@ -3,7 +3,8 @@
 set -e
 cd /verif/lean
 lake build Hpbf driver
-for m in $(ls Hpbf/Props/*.lean | sed 's#/#.#g; s#\.lean$##'); do lake build "$m"; done
+# every theorem module a registered check audits (listed in checklib/props.py)
+for m in $(cd /verif/checklib && python3 -c "import props; print(' '.join(sorted({m for p in props.PROPS.values() for m in p['modules']})))"); do lake build "$m"; done
 cd /verif/harness
 CARGO_NET_OFFLINE=true cargo build --offline
 CARGO_NET_OFFLINE=true cargo build --offline --release
